@@ -25,6 +25,8 @@ type Config struct {
 	Concrete    map[string]uint64 // concrete mode: nd values by name (conformance / replay-in-executor)
 	ConcreteSet bool
 	ReverseMaps bool
+	BranchMS    int // solver timeout for branch-feasibility queries (unknown = keep both sides)
+	Merge       map[string]bool // callees executed with path merging (must be statically pure)
 	Tier        int // 0 quick, 1 thorough (read by harnesses through nd.Tier/nd.Bound)
 	Trace       bool
 }
@@ -89,6 +91,8 @@ type Machine struct {
 	threads  *sched
 	ufInj    map[string][]T
 	onceDone map[Ptr]bool
+	curH     int
+	scope    *sumScope
 
 	InitNotes []string
 
@@ -108,6 +112,8 @@ type MStats struct {
 	AssertUnk    int
 	BranchQ      int
 	Steps        int64
+	MergedCalls  int
+	MergedPaths  int
 }
 
 func (m *Machine) abort(kind, format string, a ...any) {
@@ -165,7 +171,7 @@ func (m *Machine) ensureModel() {
 	if m.model != nil {
 		return
 	}
-	r := m.S.Check()
+	r := m.S.CheckT(m.Conf.BranchMS)
 	m.Stats.BranchQ++
 	switch r {
 	case solver.Sat:
@@ -210,7 +216,7 @@ func (m *Machine) feasible(c T) bool {
 		return true
 	}
 	m.Stats.BranchQ++
-	r := m.S.Check(c)
+	r := m.S.CheckT(m.Conf.BranchMS, c)
 	if r == solver.Sat {
 		m.S.EndModel()
 	}
@@ -228,8 +234,12 @@ func (m *Machine) Decide(c T) bool {
 		panic(pathEnd{"internal", "symbolic condition in concrete mode: " + c.String()})
 	}
 	pos := len(m.trace)
-	if pos < len(m.prefix) {
-		d := m.prefix[pos]
+	pfx, base := m.prefix, 0
+	if m.scope != nil {
+		pfx, base = m.scope.prefix, m.scope.base
+	}
+	if pos-base < len(pfx) {
+		d := pfx[pos-base]
 		m.trace = append(m.trace, d)
 		if d != 0 {
 			m.addPC(c)
@@ -273,14 +283,14 @@ func (m *Machine) Decide(c T) bool {
 		} else {
 			m.model = nil
 		}
-		alt := make([]int32, pos+1)
-		copy(alt, m.trace)
+		alt := make([]int32, pos+1-base)
+		copy(alt, m.trace[base:])
 		if d {
-			alt[pos] = 0
+			alt[pos-base] = 0
 		} else {
-			alt[pos] = 1
+			alt[pos-base] = 1
 		}
-		m.W.push(alt)
+		m.pushAlt(alt)
 	case tFeas:
 		d = true
 	case fFeas:
@@ -304,16 +314,20 @@ func (m *Machine) Fork(n int) int {
 		return 0
 	}
 	pos := len(m.trace)
-	if pos < len(m.prefix) {
-		d := m.prefix[pos]
+	pfx, base := m.prefix, 0
+	if m.scope != nil {
+		pfx, base = m.scope.prefix, m.scope.base
+	}
+	if pos-base < len(pfx) {
+		d := pfx[pos-base]
 		m.trace = append(m.trace, d)
 		return int(d)
 	}
 	for i := 1; i < n; i++ {
-		alt := make([]int32, pos+1)
-		copy(alt, m.trace)
-		alt[pos] = int32(i)
-		m.W.push(alt)
+		alt := make([]int32, pos+1-base)
+		copy(alt, m.trace[base:])
+		alt[pos-base] = int32(i)
+		m.pushAlt(alt)
 	}
 	m.trace = append(m.trace, 0)
 	return 0
@@ -334,7 +348,7 @@ func (m *Machine) Assume(c T) {
 	m.addPC(c)
 	m.model = nil
 	m.Stats.BranchQ++
-	r := m.S.Check()
+	r := m.S.CheckT(m.Conf.BranchMS)
 	if r == solver.Unsat {
 		m.abort("infeasible", "assume unsat")
 	}
@@ -447,6 +461,7 @@ func (m *Machine) RunPath(fn *ssa.Function, prefix []int32) (res PathResult) {
 	m.observes = nil
 	m.notes = nil
 	m.threads = nil
+	m.scope = nil
 	m.ufInj = map[string][]T{}
 	m.S.PopTo(0)
 	m.S.Push()
